@@ -52,6 +52,10 @@ CHECKS = {
          "Static half (exhaustive): every construction site of a coded VTL exception in src/vtlengine is extracted as a fact (code literal, keyword names, **kwargs) and TLC decides, against the catalogue read from messages.py at check time, code in catalogue and placeholders subset of keywords. Dynamic half: every error raised by the shaped calls, the runtime-failure generators, parser errors and corpus scripts is one event validated by TLC (code catalogued, message fully rendered, constructor did not itself fail).",
          "Sites whose code is computed at run time are listed as not decided; sites passing **kwargs are accepted statically. The TLA+ contribution is a set inclusion over extracted facts.",
          "static raise-site facts + recorded errors validated by TLC against the message catalogue"),
+ 'C27': ('model_checking',
+         "VTLSdmx transcribes the documented role table, type table and nullability rule; TLC (GenSdmx) maps EVERY data type known to the installed pysdmx (read at check time) x every role, and seeded structures of 1-5 components, to the documented VTL structure or to the input-validation error, and checks that dimensions are the only non-nullable components. Each structure is built as Schema, DataStructureDefinition and Dataflow and observed through to_vtl_json(), semantic_analysis(), run() and run_sdmx(): one component per SDMX component with the documented role, type and nullability, or an InputValidationException.",
+         "SDMX-ML / SDMX-JSON structure files need pysdmx[xml], which is not installed: pysdmx objects only.",
+         "TLC enumeration of the documented SDMX mapping tables replayed into the four API entry points"),
  'C32': ('model_checking',
          "VTLApi obligation OutcomeAlphabet: a call ends ok or with a catalogued VTL error; a raw exception has no enabling action, so its event is rejected by VTLApi_Trace. Drivers: a runtime-hostile generator (about 230 script templates: numeric domain errors, overflows, zero divisors at dataset / component / scalar level, casts of unparsable text, regex operators with malformed patterns, substr / instr edge arguments, every time operator over periods of every indicator incl. W53 / D366 / year 9999, date arithmetic overflow, duration conversions, conditionals) x hostile value pools x the four time-period output formats x memory / csv / parquet delivery, plus random units and corpus scripts. Only calls whose script passes semantic_analysis() are judged (the property's antecedent).",
          "Inputs are generated valid for their declared structure. Raw errors raised inside semantic analysis are counted and listed in the evidence notes but not judged (outside the antecedent).",
